@@ -1,11 +1,12 @@
 """C05 - Conflicts are detected and conciliated exactly as the strategy says (structural clauses)."""
 import ast
 from ..model import own_nodes, AnalysisError
-from ..defuse import comp_view, cond_atoms
+from ..defuse import comp_view, cond_atoms, closed_text
 from ..paths import factmap, call_text, returns, must_call
 from ..callgraph import CallGraph
 from ..absval import EnumEval
 from ..fsm import Fsm
+from . import shared
 
 TABLE = {'SENICIDE': 'SenicideStrategy', 'INFANTICIDE': 'InfanticideStrategy', 'USER': 'UserStrategy',
          'STOP': 'StopStrategy', 'RESTART': 'RestartStrategy', 'RUNNING_FAILURE': 'FailureStrategy'}
@@ -136,7 +137,8 @@ def run(P, R):
                   'FailureStrategy': {'self.supvisors.stopper.stop_process',
                                       'self.supvisors.failure_handler.add_default_job'}}
     for cname, (keep, restrict) in spec.items():
-        u = P.unit(cname + '.conciliate')
+        kcls = P.cls(cname)
+        u = P.resolved(kcls, 'conciliate')        # through the MRO: the body may live in a common base class
         loops = [l for l in u.node.body if isinstance(l, ast.For)]
         R.require(len(loops) == 1 and ast.unparse(loops[0].iter) == u.node.args.args[1].arg,
                   '%s.conciliate: loop over the conflicts not found' % cname)
@@ -152,23 +154,50 @@ def run(P, R):
                 u.loc(), '%s.conciliate calls an action on another object than the loop variable `%s`' % (cname, var))
         sp = [c for c in acts if call_text(c).endswith('.stop_process')]
         if restrict:
-            # saved = min/max(process.running_identifiers, key=lambda x: process.info_map[x]['uptime'])
+            # saved = min/max(<the identifiers where the process RUNS>, key=<uptime of that copy>); the function may be
+            # a class constant of the strategy class (self.<attr> = min / max)
+            def chooser(call):
+                t = call_text(call)
+                if t in ('min', 'max'):
+                    return t
+                if t.startswith('self.') and t.count('.') == 1:
+                    mem = P.member(kcls, t[5:])
+                    if mem and mem[0] == 'cattr' and isinstance(mem[2][1], ast.Name) and mem[2][1].id in ('min', 'max'):
+                        return mem[2][1].id
+                return None
             sv = [a for a in ast.walk(loops[0]) if isinstance(a, ast.Assign) and isinstance(a.value, ast.Call)
-                  and call_text(a.value) in ('min', 'max') and a.value.args
-                  and ast.unparse(a.value.args[0]) == '%s.running_identifiers' % var]
-            ok = len(sv) == 1 and call_text(sv[0].value) == keep and any(
-                k.arg == 'key' and isinstance(k.value, ast.Lambda) and "['uptime']" in ast.unparse(k.value.body)
-                and '%s.info_map[' % var in ast.unparse(k.value.body) for k in sv[0].value.keywords)
+                  and chooser(a.value) and a.value.args]
+            ok = False
+            if len(sv) == 1:
+                c0 = sv[0].value
+                among = closed_text(u, c0.args[0])
+                E = 'each(%s)' % loops[0].iter.id if isinstance(loops[0].iter, ast.Name) else '?'
+                key = ' '.join(closed_text(u, k.value) for k in c0.keywords if k.arg == 'key')
+                # the candidates: the running identifiers themselves, or a table built by iterating them (never the
+                # whole info_map: an instance that knows the program without running it must not be "kept")
+                cand_ok = among == E + '.running_identifiers' or (
+                    ' in %s.running_identifiers' % E in among and '%s.info_map.items()' % E not in among and
+                    ' in %s.info_map' % E not in among.replace(' in %s.info_map[' % E, ''))
+                ok = chooser(c0) == keep and cand_ok and 'uptime' in (key + among)
             R.check(r4, ok, '%s keeps the copy with the %s uptime' % (cname, 'lowest' if keep == 'min' else 'highest'),
-                    'effect|%s|kept' % cname, u.loc(), '%s.conciliate does not keep %s(running_identifiers, key=uptime)' %
-                    (cname, keep))
-            saved = sv[0].targets[0].id if sv else '?'
+                    'effect|%s|kept' % cname, u.loc(), '%s.conciliate does not keep %s(running_identifiers, key=uptime): %s'
+                    % (cname, keep, [closed_text(u, a.value)[:140] for a in sv]))
+            saved = sv[0].targets[0].id if sv and isinstance(sv[0].targets[0], ast.Name) else '?'
             cp = [a for a in ast.walk(loops[0]) if isinstance(a, ast.Assign) and
                   ast.unparse(a.value) in ('%s.running_identifiers.copy()' % var, 'set(%s.running_identifiers)' % var)]
             rm = [c for c in ast.walk(loops[0]) if isinstance(c, ast.Call) and isinstance(c.func, ast.Attribute)
                   and c.func.attr in ('remove', 'discard') and c.args and ast.unparse(c.args[0]) == saved]
             ok = len(cp) == 1 and len(rm) == 1 and ast.unparse(rm[0].func.value) == cp[0].targets[0].id and \
                 len(sp) == 1 and len(sp[0].args) >= 2 and ast.unparse(sp[0].args[1]) == cp[0].targets[0].id
+            # or the set difference written directly
+            if not ok and len(sp) == 1 and len(sp[0].args) >= 2:
+                arg = sp[0].args[1]
+                if isinstance(arg, ast.Name):
+                    d = [a.value for a in ast.walk(loops[0]) if isinstance(a, ast.Assign) and
+                         isinstance(a.targets[0], ast.Name) and a.targets[0].id == arg.id]
+                    arg = d[0] if len(d) == 1 else arg
+                ok = ast.unparse(arg) in ('%s.running_identifiers - {%s}' % (var, saved),
+                                          '%s.running_identifiers.difference({%s})' % (var, saved))
             R.check(r4, ok, '%s stops every copy but the kept one' % cname, 'effect|%s|others' % cname, u.loc(),
                     '%s.conciliate does not stop on a copy of running_identifiers minus the kept identifier' % cname)
         else:
@@ -198,6 +227,8 @@ def run(P, R):
     R.check(r4, ok, 'RESTART stops every copy and defers one start until stopped', 'effect|RestartStrategy|restart',
             rp.loc(), 'Stopper.restart_process does not stop all copies of a running process and record one deferred '
             'start')
+
+    shared.running_definitions(P, R, r4)
 
     # ---------------------------------------------------------------- R5
     r5 = R.rule('R5', 'stop-target filter', 'a stop planned with an identifier set only targets instances of that set '
